@@ -15,7 +15,7 @@ use std::sync::OnceLock;
 pub const LAYOUTS: &[(&str, &str)] = &[
     (
         "101",
-        "20 21R? 28D 50[CL]? 50[FGH]? 52[AC]? 51A? 30 25? ( 21 21F? 23E* 32B 50[CL]? 50[FGH]? 52[AC]? 56[ACD]? 57[ACD]? 59[-AF] 70? 77B? 33B? 71A 25A? 36? ){1,}",
+        "20 21R? 28D 50[CL]? 50[FGH]? 52[AC]? 51A? 30 25? ( 21 21F? 23E* 32B 50[CL]? 50[FGH]? 52[AC]? 56[ACD]? 57[ABCD]? 59[-AF] 70? 77B? 33B? 71A 25A? 36? ){1,}",
     ),
     (
         "103",
@@ -23,39 +23,39 @@ pub const LAYOUTS: &[(&str, &str)] = &[
     ),
     (
         "104",
-        "20 21R? 23E? 21E? 30 51A? 50[CL]? 50[AK]? 52[ACD]? 26T? 77B? 71A? 72? ( 21 23E? 21C? 21D? 21E? 32B 50[CL]? 50[AK]? 52[ACD]? 57[ACD]? 59[-A] 70? 26T? 77B? 33B? 71A? 71F? 71G? 36? ){1,} (: 32B 19? 71F? 71G? 53[ABD]? ){0,1}",
+        "20 21R? 23E? 21E? 30 51A? 50[CL]? 50[AK]? 52[ACD]? 26T? 77B? 71A? 72? ( 21 23E? 21C? 21D? 21E? 32B 50[CL]? 50[AK]? 52[ACD]? 57[ABCD]? 59[-A] 70? 26T? 77B? 33B? 71A? 71F? 71G? 36? ){1,} (: 32B 19? 71F? 71G? 53[ABD]? ){0,1}",
     ),
     (
         "107",
-        "20 23E? 21E? 30 51A? 50[CL]? 50[AK]? 52[ACD]? 26T? 77B? 71A? 72? ( 21 23E? 21C? 21D? 21E? 32B 50[CL]? 50[AK]? 52[ACD]? 57[ACD]? 59[-A] 70? 26T? 77B? 33B? 71A? 71F? 71G? 36? ){1,} 32B 19? 71F? 71G? 53[ABD]?",
+        "20 23E? 21E? 30 51A? 50[CL]? 50[AK]? 52[ACD]? 26T? 77B? 71A? 72? ( 21 23E? 21C? 21D? 21E? 32B 50[CL]? 50[AK]? 52[ACD]? 57[ABCD]? 59[-AF] 70? 26T? 77B? 33B? 71A? 71F? 71G? 36? ){1,} 32B 19? 71F? 71G? 53[ABD]?",
     ),
     (
         "110",
-        "20 53[ABD]? 54[ABD]? 72? ( 21 30 32[AB] 50[AFK]? 52[ABD]? 59[-F] ){1,10}",
+        "20 53[ABD]? 54[ABD]? 72? ( 21 30 32[AB] 50[AFK]? 52[ABD]? 59[-AF] ){1,10}",
     ),
     ("111", "20 21 30 32[AB] 52[AD]? 59? 75?"),
     ("112", "20 21 30 32[AB] 52[AD]? 59? 76"),
     ("190", "20 21 25 32[CD] 52[AD]? 71B 72?"),
-    ("191", "20 21 32B 52[AD]? 57[ABD]? 71B 72?"),
+    ("191", "20 21 32B 52[AD]? 57[ABCD]? 71B 72?"),
     ("192", "20 21 11S 79?"),
     ("196", "20 21 76 77A? 79?"),
     ("199", "20 21? 79"),
     ("200", "20 32A 53B? 56[AD]? 57[ABD] 72?"),
     (
         "202",
-        "20 21 13C* 32A 52[AD]? 53[ABD]? 54[ABD]? 56[AD]? 57[ABD]? 58[AD] 72? ( 50[AFK] 52[AD]? 56[ACD]? 57[ABCD]? 59[-AF]? 70? 72? 33B? ){0,1}",
+        "20 21 13C* 32A 52[AD]? 53[ABD]? 54[ABD]? 56[ACD]? 57[ABCD]? 58[AD] 72? ( 50[AFK] 52[AD]? 56[ACD]? 57[ABCD]? 59[-AF]? 70? 72? 33B? ){0,1}",
     ),
     (
         "204",
-        "19 20 30 57[ABD]? 58[AD]? 72? ( 20 21? 32B 53[ABD]? 72? ){1,10}",
+        "19 20 30 57[ABCD]? 58[AD]? 72? ( 20 21? 32B 53[ABD]? 72? ){1,10}",
     ),
     (
         "205",
-        "20 21 13C* 32A 52[AD]? 53[ABD]? 56[AD]? 57[ABD]? 58[AD] 72?",
+        "20 21 13C* 32A 52[AD]? 53[ABD]? 56[ACD]? 57[ABCD]? 58[AD] 72?",
     ),
     (
         "210",
-        "20 25? 30 ( 21? 32B 50[-CF]? 52[AD]? 56[AD]? ){1,10}",
+        "20 25? 30 ( 21? 32B 50[-CF]? 52[AD]? 56[ACD]? ){1,10}",
     ),
     ("290", "20 21 25 32[CD] 52[AD]? 71B 72?"),
     ("291", "20 21 32B 52[AD]? 57[ABD]? 71B 72?"),
@@ -63,7 +63,7 @@ pub const LAYOUTS: &[(&str, &str)] = &[
     ("296", "20 21 76 77A? < 11R 11S >? 79?"),
     ("299", "20 21? 79"),
     ("900", "20 21 25[-P] 13D? 32A 52[AD]? 72?"),
-    ("910", "20 21 25[-P] 13D? 32A 50[AFK]? 52[AD]? 56[AD]? 72?"),
+    ("910", "20 21 25[-P] 13D? 32A 50[AFK]? 52[AD]? 56[ACD]? 72?"),
     ("920", "20 ( 12 25 34F? 34F? ){1,100}"),
     ("935", "20 ( < 23 25 > 30 37H+ ){1,10} 72?"),
     ("940", "20 21? 25 28C 60F ( 61 86? ){1,} 62F 64? 65*"),
@@ -195,11 +195,11 @@ pub fn parse_layout(s: &str) -> Vec<L> {
 pub const RECOGNITION_OVERRIDES: &[(&str, &str)] = &[
     (
         "104",
-        "20 21R? 23E? 21E? 30 51A? 50[CL]? 50[AK]? 52[ACD]? 26T? 77B? 71A? 72? ( 21 23E? 21C? 21D? 21E? 32B 50[CL]? 50[AK]? 52[ACD]? 57[ACD]? 59[-A] 70? 26T? 77B? 33B? 71A? 71F? 71G? 36? ){1,} 32B? 19? 71F? 71G? 53[ABD]?",
+        "20 21R? 23E? 21E? 30 51A? 50[CL]? 50[AK]? 52[ACD]? 26T? 77B? 71A? 72? ( 21 23E? 21C? 21D? 21E? 32B 50[CL]? 50[AK]? 52[ACD]? 57[ABCD]? 59[-A] 70? 26T? 77B? 33B? 71A? 71F? 71G? 36? ){1,} 32B? 19? 71F? 71G? 53[ABD]?",
     ),
     (
         "202",
-        "20 21 13C* 32A 52[AD]? 53[ABD]? 54[ABD]? 56[AD]? 57[ABD]? 58[AD] 72? 50[AFK]? 52[AD]? 56[ACD]? 57[ABCD]? 59[-AF]? 70? 72? 33B?",
+        "20 21 13C* 32A 52[AD]? 53[ABD]? 54[ABD]? 56[ACD]? 57[ABCD]? 58[AD] 72? 50[AFK]? 52[AD]? 56[ACD]? 57[ABCD]? 59[-AF]? 70? 72? 33B?",
     ),
     (
         "942",
